@@ -22,7 +22,7 @@ run_physical   prep (which prunes source literals of the plan it is given), then
    process, worker_count=max_workers, max_errors=max_errors, scheduler=scheduler), then returns output_slot.value.
 """
 from ujvc.core import EngineSignal, Unsupported
-from ujvc.units import get, unit
+from ujvc.units import get, unit, user_value
 from ujvc.vc import VC
 from ujvc.z3env import z3
 
@@ -72,6 +72,15 @@ class UserBase(BaseException):
     pass
 
 
+import dataclasses as _dc  # noqa: E402
+
+
+@_dc.dataclass(frozen=True)
+class FrozenUserExc(UserExc):
+    """an exception class that is a frozen dataclass: assigning ANY attribute of an instance (``__traceback__`` included) raises FrozenInstanceError"""
+    code: int = 3
+
+
 def _catch(ctx, f):
     try:
         return "ret", f()
@@ -116,7 +125,7 @@ def process_unit(ctx):
     calls = []
     k = ctx.choose(2, "node-kind")
     if k == 1:
-        node = graph.Literal(object(), scope=("s",))
+        node = graph.Literal(user_value("literal"), scope=("s",))
     else:
         node = graph.Call(user_fn, scope=("outer", 7), stack_frame=None)
     raised = {}
@@ -129,7 +138,10 @@ def process_unit(ctx):
             calls.append((fn, retry))
 
             def _user():
-                o = ctx.choose(3, "call")
+                o = ctx.choose(4, "call")
+                if o == 3:
+                    raised["e"] = FrozenUserExc(7)      # attributes cannot be assigned: the library may only use with_traceback on it
+                    raise raised["e"]
                 if o == 1:
                     raised["e"] = UserExc("boom")
                     raise raised["e"]
@@ -200,7 +212,7 @@ def process_unit(ctx):
     return "baseexception"
 
 
-@unit("runphys.BoundCall.run", props=["C02", "C10", "C16"], functions=[(REL, "BoundCall.run"), (REL, "BoundCall.__init__")],
+@unit("runphys.BoundCall.run", props=["C02", "C10", "C16", "C13"], functions=[(REL, "BoundCall.run"), (REL, "BoundCall.__init__")],
       assumptions=["parametric in the argument lists: checked on lists of 0..3 distinct opaque slots (comprehensions and the call protocol act uniformly on elements)"],
       min_obligations=4, kind="concrete-parametric")
 def boundcall_run_unit(ctx):
@@ -210,8 +222,10 @@ def boundcall_run_unit(ctx):
     run = get(REL, "BoundCall.run").compile_into(env)
     npos = ctx.choose(4, "n-positional")
     nkw = ctx.choose(3, "n-keyword")
-    vals = [object() for _ in range(npos)]
-    kvals = [object() for _ in range(nkw)]
+    vals = [user_value(f"pos{i}") for i in range(npos)]
+    if npos:
+        vals[-1] = iter(["one-shot", "iterator"])     # a one-shot iterator as an argument: handed over as it is, unconsumed, and the slot keeps it
+    kvals = [user_value(f"kw{i}") for i in range(nkw)]
     names = ["zeta", "alpha"][:nkw]  # deliberately not sorted: order must be kept
     args = [util.Slot(None) for _ in range(npos)]
     kwargs = {n: util.Slot(None) for n in names}
@@ -229,7 +243,7 @@ def boundcall_run_unit(ctx):
     for n, v in zip(names, kvals):
         kwargs[n].value = v
     log = []
-    R = object()
+    R = user_value("result")
 
     def fn(*a, **k):
         log.append(("fn", a, list(k.items())))
@@ -251,7 +265,9 @@ def boundcall_run_unit(ctx):
         ctx.check("result-stored-in-own-result-slot", bool(result.value is R and val is None))
     else:
         ctx.check("exception-propagates,result-slot-untouched", bool(isinstance(val, UserExc) and result.value == "unset"))
-    ctx.check("argument-slots-not-modified", bool(all(sl.value is v for sl, v in zip(args, vals))))
+    ctx.check("argument-slots-not-modified", bool(all(sl.value is v for sl, v in zip(args, vals)) and all(kwargs[n_].value is v for n_, v in zip(names, kvals))), props=["C13", "C02"])
+    if npos:
+        ctx.check("a-one-shot-iterator-argument-reaches-the-function-unconsumed", bool(next(vals[-1], None) == "one-shot"), props=["C02"])
     return kind
 
 
@@ -288,7 +304,7 @@ class GenericNodes:
 def create_bound_calls_unit(ctx):
     graph, util, errors, _graph = _real()
     c1, c2 = graph.Call(user_fn), graph.Call(user_fn)
-    lit = graph.Literal(object())
+    lit = graph.Literal(user_value("literal"))
     ga = {c1: ([c2, lit], {"zeta": lit, "alpha": c2}), c2: ([], {})}
     calls = []
 
@@ -624,4 +640,8 @@ unit("runphys.release[bounded]", props=["C16"],
      assumptions=["bounded stand-in: six plan shapes + a failing consumer (Exception / BaseException / C-level) while the run goes on; strict reading: the cyclic collector is disabled, results must be freed by reference counting"],
      min_obligations=2, kind="bounded")(_c16_bounded)
 
-REPLAYS = [("runphys.release*", _replay16), ("runphys.no-exception-retention*", _replay16), ("runphys.process/call:bound-call-released*", _replay16), ("runphys.process/Exception:neither-the-raised*", _replay16)] + list(globals().get("REPLAYS", []))
+def _replay_f6(ob):      # lazily: contracts.tracebacks imports this module
+    return __import__("contracts.tracebacks", fromlist=["_replay_f6"])._replay_f6(ob)
+
+
+REPLAYS = [("runphys.process/Exception:raises-NodeError*", _replay_f6), ("runphys.process/Exception:trace*", _replay_f6), ("runphys.release*", _replay16), ("runphys.no-exception-retention*", _replay16), ("runphys.process/call:bound-call-released*", _replay16), ("runphys.process/Exception:neither-the-raised*", _replay16)] + list(globals().get("REPLAYS", []))
